@@ -245,6 +245,87 @@ def explore(chk):
         got, bal = flags_of_markup(cue, lambda d: set())
         if not bal or got != want:
             chk.property_failure(dict(case, cue=cue[:400], parsed=str(got)[:400]), "webvtt writer: a span styled by a class is not wrapped in the i/b/u tags its class asks for in this caption set")
+    # ---- spans that carry attributes of their own next to the style (alignment, colour, font): italic / bold / underline
+    #      must survive whatever else the span says
+    from pycaption.geometry import Layout, Point, Size, UnitEnum
+    def lay_(x, y):
+        return Layout(origin=Point(Size(x, UnitEnum.PERCENT), Size(y, UnitEnum.PERCENT)))
+    for k_ in range(60 if chk.tier == "quick" else 2000):
+        sty = rng.choice(["i", "i", "ib", "iu", "b", "u", "ibu"])
+        content = {key: True for x, key in (("i", "italics"), ("b", "bold"), ("u", "underline")) if x in sty}
+        extra = rng.choice([{"text-align": "right"}, {"text-align": "center", "color": "yellow"}, {"color": "#ff0000"}, {"font-family": "Arial"},
+                            {"font-size": "12px"}, {"text-align": "left", "font-family": "monospace", "color": "white"}])
+        content.update(extra)
+        words = [rng.choice(WORDS) for _ in range(3)]
+        nodes = [CaptionNode.create_text(words[0] + " "), CaptionNode.create_style(True, dict(content)), CaptionNode.create_text(words[1]),
+                 CaptionNode.create_style(False, dict(content)), CaptionNode.create_text(" " + words[2])]
+        cs = CaptionSet({"en-US": CaptionList([Caption(1000000, 2500000, nodes)])})
+        act = frozenset(sty)
+        want = [(ch, frozenset()) for ch in words[0]] + [(ch, act) for ch in words[1]] + [(ch, frozenset()) for ch in words[2]]
+        case = {"span_content": content, "words": words}
+        chk.case(key=json.dumps(case, sort_keys=True), nontrivial=True); chk.count("spans_with_other_attributes")
+        try:
+            docs = {"dfxp": core.POOL.get(pycaption.DFXPWriter).write(cs), "sami": core.POOL.get(pycaption.SAMIWriter).write(cs)}
+            for name, style, keep in (("dfxp", dfxp_span_style, "i"), ("sami", sami_span_style, "ibu")):
+                frag = [f for f in p_fragments(docs[name]) if f.strip() not in ("&nbsp;", "")]
+                got, bal = flags_of_markup(frag[0] if frag else "", style)
+                if not bal or got != project(want, keep):
+                    chk.property_failure(dict(case, writer=name, fragment=frag[0][:500] if frag else ""), "%s writer: a span that also carries %s loses its style or its balance" % (name, sorted(extra)))
+                    continue
+                rs = core.POOL.get(pycaption.DFXPReader if name == "dfxp" else pycaption.SAMIReader).read(docs[name])
+                rn = capio.obs_nodes(rs.get_captions(rs.get_languages()[0])[0].nodes)
+                got, bal = node_flags(rn)
+                if not bal or got != project(want, keep):
+                    chk.property_failure(dict(case, chain=name + "->" + name, read_nodes=str(rn)[:500]), "%s -> %s: styled characters of a span that also carries %s changed" % (name, name, sorted(extra)))
+        except Exception as e:
+            chk.property_failure(dict(case, error=repr(e)[:300]), "writer / reader raised on a span with additional attributes")
+    # ---- a styled span positioned differently from the text before it: WebVTT gives every layout its own cue, and each cue
+    #      must carry balanced tags around exactly the styled characters
+    for k_ in range(40 if chk.tier == "quick" else 1500):
+        sty = rng.choice(["i", "b", "u", "ib"])
+        content = {key: True for x, key in (("i", "italics"), ("b", "bold"), ("u", "underline")) if x in sty}
+        la, lb = lay_(10, 10), lay_(20, rng.choice([20, 70]))
+        words = [rng.choice(WORDS) for _ in range(4)]
+        shape = k_ % 3
+        nodes = [CaptionNode.create_text(words[0], layout_info=la), CaptionNode.create_style(True, dict(content), layout_info=lb),
+                 CaptionNode.create_text(words[1], layout_info=lb)]
+        want = [(ch, frozenset()) for ch in words[0]] + [(ch, frozenset(sty)) for ch in words[1]]
+        if shape == 1:      # the span goes on in a third layout
+            nodes.append(CaptionNode.create_text(words[2], layout_info=la)); want += [(ch, frozenset(sty)) for ch in words[2]]
+        nodes.append(CaptionNode.create_style(False, dict(content), layout_info=lb))
+        if shape == 2:
+            nodes.append(CaptionNode.create_text(words[3], layout_info=la)); want += [(ch, frozenset()) for ch in words[3]]
+        cs = CaptionSet({"en-US": CaptionList([Caption(1000000, 2500000, nodes, layout_info=la)])})
+        if chk.driver_ok:
+            # the grouping function itself against its model (layouts as ids: A = 1, B = 2)
+            enc_ = " ".join(("T" + core.enc(n.content) + "@" + ("1" if n.layout_info == la else "2")) if n.type_ == CaptionNode.TEXT else
+                            capio.enc_node_abs(("S", n.start, "i" in sty, "b" in sty, "u" in sty)) for n in nodes)
+            M = [(core.dec(x.rsplit(":", 1)[0]), int(x.rsplit(":", 1)[1])) for x in core.dec_list(core.run_driver(["vtt.groups\t" + enc_])[0], lambda z: z)]
+            I = [(s_, 1 if l_ == la else 2) for (s_, l_) in pycaption.WebVTTWriter()._group_cues_by_layout(nodes, cs)]
+            if I != M:
+                chk.correspondence_failure({"nodes": enc_, "impl": str(I)[:500], "model": str(M)[:500]}, "webvtt grouping with a span across layouts: implementation and model differ")
+        case = {"style": sty, "words": words, "shape": ["text@A <span@B>text@B</span>", "text@A <span@B>text@B text@A</span>", "text@A <span@B>text@B</span> text@A"][shape]}
+        chk.case(key=json.dumps(case, sort_keys=True), nontrivial=True); chk.count("span_in_another_layout")
+        try:
+            vtt = core.POOL.get(pycaption.WebVTTWriter).write(cs)
+        except Exception as e:
+            chk.property_failure(dict(case, error=repr(e)[:300]), "webvtt writer raised on a span positioned differently from the text before it"); continue
+        cues = []           # WebVTT cue grammar: a timing line starts a cue, a blank line or the next timing line ends it
+        for ln in vtt.split("\n")[1:]:
+            if "-->" in ln:
+                cues.append("")
+            elif ln.strip() == "":
+                pass
+            elif cues:
+                cues[-1] += ln + "\n"
+        got = []; bal = True
+        for cue in cues:
+            g, b_ = flags_of_markup(cue, lambda d: set())
+            got += g; bal = bal and b_
+        if not bal:
+            chk.property_failure(dict(case, document=vtt[:700]), "webvtt writer: a cue's i/b/u tags are not balanced when a span is positioned differently from the text before it")
+        elif got != want:
+            chk.property_failure(dict(case, document=vtt[:700], parsed=str(got)[:400]), "webvtt writer: characters of a span positioned differently from the text before it are not wrapped in its tags")
     # ---- SCC reader outputs: balanced style nodes
     from pcv.props import scc_common as sc
     NS = 100 if chk.tier == "quick" else 3000
